@@ -892,6 +892,7 @@ type loopPolicy struct {
 // loop id (function "/" subject). Loops without an entry admit no skip and no non-error exit.
 func (c *Ctx) loopTotality(rule string, ds []*declInfo, table map[string]loopPolicy, commonSkips map[string]string) {
 	n := 0
+	c.groupedSourceConsumed(rule, ds)
 	for _, d := range ds {
 		for _, li := range c.loopsIn(d) {
 			if len(li.accs) == 0 {
